@@ -48,6 +48,8 @@ pub struct Snap {
     pub keeper_rate: u128,
     pub keeper: Id,
     pub reg_vals: Vec<Id>,
+    /// the registry's stored map (reg_vals is what its list query answers)
+    pub reg_stored: Vec<Id>,
     pub disp_bank: [u128; 3],
     pub pending_total: [u128; 3],
     pub legacy: usize,
@@ -138,6 +140,7 @@ pub fn snap(c: &Chain) -> Snap {
         s.keeper = id_of(&d.krp_keeper_address);
     }
     s.reg_vals = c.reg_validators().iter().map(|x| x.0).collect();
+    s.reg_stored = c.reg_stored();
     for d in 0..3u8 {
         s.disp_bank[d as usize] = c.bal(DISP, d);
         s.pending_total[d as usize] = VALS.iter().map(|v| if c.deleg.contains_key(v) { c.pending_of(*v, d) } else { 0 }).sum();
@@ -452,6 +455,48 @@ pub fn check_step(cx: &StepCtx) -> Vec<Violation> {
         }
     }
 
+    // ---------------------------------------------------------------- C10: a principal the owner names is the principal afterwards
+    // (the table of principals is read from the stored configuration; an UpdateConfig that succeeds
+    // but leaves — or puts back — another address keeps authorising the former principal)
+    if let Op::Tx { target, call, .. } = op {
+        if ok {
+            let same = |a: Id, b: Id| a % 1000 == b % 1000;
+            let mut stale = |what: &str, want: Id, got: Option<Id>| {
+                if got.map(|g| !same(g, want)).unwrap_or(true) {
+                    out.push(v("C10", &format!("principal-not-updated:{}", kind), format!("{}: the owner named {} as {} but the stored configuration says {:?}", kind, want, what, got)));
+                }
+            };
+            match (*target, call) {
+                (DISP, Call::Disp(DispMsg::UConfig(h, r, _, _, k, _))) => {
+                    let cfg: Option<basset::dispatcher::ConfigResponse> = cx.chain_post.q(DISP, &basset_sei_rewards_dispatcher::msg::QueryMsg::Config {}).ok();
+                    if let Some(h) = h { stale("hub_contract", *h, cfg.as_ref().map(|c| id_of(&c.hub_contract))); }
+                    if let Some(r) = r { stale("bsei_reward_contract", *r, cfg.as_ref().map(|c| id_of(&c.bsei_reward_contract))); }
+                    if let Some(k) = k { stale("krp_keeper_address", *k, cfg.as_ref().map(|c| id_of(&c.krp_keeper_address))); }
+                }
+                (REWARD, Call::Reward(RewMsg::UConfig(Some(h), _, _))) => {
+                    let cfg: Option<basset::reward::ConfigResponse> = cx.chain_post.q(REWARD, &basset::reward::QueryMsg::Config {}).ok();
+                    stale("hub_contract", *h, cfg.as_ref().map(|c| id_of(&c.hub_contract)));
+                }
+                (REG, Call::Reg(RegMsg::UConfig(Some(h)))) => {
+                    let got = cx.chain_post.stores.get(&REG).and_then(|st| basset_sei_validators_registry::registry::CONFIG.load(st).ok()).and_then(|k| {
+                        use cosmwasm_std::Api;
+                        cosmwasm_std::testing::MockApi::default().addr_humanize(&k.hub_contract).ok()
+                    }).map(|a| id_of(a.as_str()));
+                    stale("hub_contract", *h, got);
+                }
+                (HUB, Call::Hub(HubMsg::UConfig(f))) => {
+                    let w = cx.chain_post.hub_wiring();
+                    let cfg: Option<basset::hub::ConfigResponse> = cx.chain_post.q(HUB, &basset::hub::QueryMsg::Config {}).ok();
+                    for (i, what) in [(0usize, "reward_dispatcher_contract"), (1, "validators_registry_contract"), (4, "airdrop_registry_contract"), (5, "rewards_contract")] {
+                        if let Some(x) = f[i] { stale(what, x, w[i]); }
+                    }
+                    if let Some(x) = f[6] { stale("update_reward_index_addr", x, cfg.as_ref().map(|c| id_of(&c.update_reward_index_addr))); }
+                }
+                _ => {}
+            }
+        }
+    }
+
     // ---------------------------------------------------------------- C18: supply conservation, mint/burn authority
     for (t, bals, supply, lbl) in [(BSEI, &post.bal_b, post.supply_b, "bsei"), (STSEI, &post.bal_s, post.supply_s, "stsei")] {
         let _ = t;
@@ -638,6 +683,19 @@ pub fn check_step(cx: &StepCtx) -> Vec<Violation> {
                 }
             }
         }
+        // ... and "its balance" is the holder's bSei balance on the token's own ledger (the reward
+        // contract's record of it is C16's subject; here a ledger balance nobody mirrored shows up
+        // as an accrual that does not follow the holdings)
+        if g_moved && cx.mirror_ok {
+            let k = post.rw.0 - pre.rw.0.min(post.rw.0);
+            for a in cast_all().iter() {
+                let tb = *pre.bal_b.get(a).unwrap_or(&0);
+                if *post.bal_b.get(a).unwrap_or(&0) == tb && owed(post, *a) != owed(pre, *a) + tb * k {
+                    out.push(v("C15", "accrual-ne-bsei-holdings", format!("{}: {} holds {} bSei and accrued {} for an index step {}", kind, a, tb, owed(post, *a) as i128 - owed(pre, *a) as i128, k)));
+                    break;
+                }
+            }
+        }
         // the index step of an update is what was *delivered* since the last one, per bSei: the
         // reward-denom coins that reached the contract and were not paid out, judged from the bank
         // history (not from the contract's own record, which a faulty claim can leave too high)
@@ -772,7 +830,7 @@ pub fn check_step(cx: &StepCtx) -> Vec<Violation> {
         }
         for e in cx.effects.iter() {
             if let Effect::Delegate { v: val, .. } = e {
-                if !pre.reg_vals.contains(val) {
+                if !pre.reg_vals.contains(val) || !pre.reg_stored.contains(val) {
                     out.push(v("C02", "delegate-to-unregistered", format!("{}: delegated to {} which is not registered", kind, val)));
                     out.push(v("C13", "delegate-to-unregistered", format!("{}: delegated to {} which is not registered", kind, val)));
                 }
@@ -1234,6 +1292,20 @@ pub fn check_step(cx: &StepCtx) -> Vec<Violation> {
         }
     }
 
+    // ---------------------------------------------------------------- C17: the swap list holds the denominations the owner named, as named
+    // (the bank's denominations are case sensitive; the list is matched verbatim against the coins held)
+    if let Op::Tx { target, call: Call::Disp(DispMsg::USwapDenom(d, is_add)), .. } = op {
+        if ok && *target == DISP {
+            let listed = cx.chain_post.q::<basset::dispatcher::ConfigResponse, _>(DISP, &basset_sei_rewards_dispatcher::msg::QueryMsg::Config {}).ok()
+                .map(|c| c.swap_denoms.iter().filter(|x| x.as_str() == denom(*d)).count());
+            match (listed, *is_add) {
+                (Some(0), true) => out.push(v("C17", "swap-denom-not-listed-as-named", format!("{}: {} was added but the swap list does not contain it", kind, denom(*d)))),
+                (Some(n), false) if n > 0 => out.push(v("C17", "swap-denom-still-listed", format!("{}: {} was removed but the swap list still contains it", kind, denom(*d)))),
+                _ => {}
+            }
+        }
+    }
+
     // ---------------------------------------------------------------- C19 / C17: index update delivers everything
     // (E3: judged only while the trusted configuration of the genesis is still in force)
     if kind == "hub.ugi" && ok && cx.envelope {
@@ -1242,6 +1314,12 @@ pub fn check_step(cx: &StepCtx) -> Vec<Violation> {
             let left: u128 = VALS.iter().map(|x| if cx.chain_pre.deleg.contains_key(x) { (0..3u8).map(|d| cx.chain_post.pending_of(*x, d)).sum::<u128>() } else { 0 }).sum();
             if left != 0 {
                 out.push(v("C19", "rewards-left-pending", format!("after UpdateGlobalIndex {} of pending rewards remain on delegated validators", left)));
+            }
+            // a third denomination on the dispatcher's swap list is a reward coin like the other two
+            let third_listed = cx.chain_post.q::<basset::dispatcher::ConfigResponse, _>(DISP, &basset_sei_rewards_dispatcher::msg::QueryMsg::Config {}).ok()
+                .map(|c| c.swap_denoms.iter().any(|d| d == denom(2))).unwrap_or(false);
+            if third_listed && post.disp_bank[2] != 0 {
+                out.push(v("C17", "listed-reward-denom-not-converted", format!("dispatcher holds {:?} after dispatch; the third denomination is on its swap list", post.disp_bank)));
             }
             if post.disp_bank[0] != 0 || post.disp_bank[1] != 0 {
                 out.push(v("C19", "dispatcher-kept-coins", format!("dispatcher holds {:?} after dispatch", post.disp_bank)));
@@ -1261,6 +1339,14 @@ pub fn check_step(cx: &StepCtx) -> Vec<Violation> {
                 }
                 if b[2] != a[2] {
                     out.push(v("C19", "bsei-pool-changed", format!("bSei pool {} → {}", a[2], b[2])));
+                }
+            }
+            // ... and the stSei rate the hub stores afterwards carries it: pool over supply plus the
+            // requests still waiting in the open batch (their stake is still in the pool)
+            if rebonded > 0 && post.raw[3] > 0 {
+                let want = rate_of(post.raw[3], post.supply_s, post.batch.2);
+                if post.raw[1] != want {
+                    out.push(v("C19", "stsei-rate-ne-pool-over-supply", format!("after re-bonding {} the stored stSei rate is {} but {} / ({} + {}) = {}", rebonded, post.raw[1], post.raw[3], post.supply_s, post.batch.2, want)));
                 }
             }
             // keeper gets floor(balance × rate) of each coin; everything else is forwarded
@@ -1326,16 +1412,16 @@ pub fn check_step(cx: &StepCtx) -> Vec<Violation> {
                     *plan.entry(*v).or_insert(0) += amt;
                 }
             }
-            let n = pre.reg_vals.len() as u128;
+            let n = pre.reg_stored.len() as u128;
             if n > 0 {
-                let total: u128 = pre.reg_vals.iter().map(|v| *pre.deleg.get(v).unwrap_or(&0)).sum();
+                let total: u128 = pre.reg_stored.iter().map(|v| *pre.deleg.get(v).unwrap_or(&0)).sum();
                 let ceil = (total + amount + n - 1) / n;
                 if plan.values().sum::<u128>() != amount {
                     out.push(v("C12", "bond-plan-not-conserved", format!("{}: {} paid, the Delegate messages carry {:?}", kind, amount, plan)));
                 }
                 for (val, d) in plan.iter() {
                     let held = *pre.deleg.get(val).unwrap_or(&0);
-                    if !pre.reg_vals.contains(val) {
+                    if !pre.reg_vals.contains(val) || !pre.reg_stored.contains(val) {
                         out.push(v("C12", "bond-plan-to-unregistered", format!("{}: {} delegated to {} which is not registered", kind, d, val)));
                     } else if *d > 0 && held + d > ceil {
                         out.push(v("C12", "bond-plan-lifts-above-even-share", format!("{}: validator {} held {} and receives {}: above the even share {} of {} + {} over {} validators", kind, val, held, d, ceil, total, amount, n)));
@@ -1358,8 +1444,8 @@ pub fn check_step(cx: &StepCtx) -> Vec<Violation> {
             }
             for e in cx.effects.iter() {
                 match e {
-                    Effect::Redelegate { dst, .. } if !post.reg_vals.contains(dst) => out.push(v("C13", "redelegated-to-unregistered", format!("redelegated to {}", dst))),
-                    Effect::Delegate { v: dst, .. } if !post.reg_vals.contains(dst) => out.push(v("C13", "delegate-to-unregistered", format!("re-bonded rewards delegated to {}", dst))),
+                    Effect::Redelegate { dst, .. } if !post.reg_vals.contains(dst) || !post.reg_stored.contains(dst) => out.push(v("C13", "redelegated-to-unregistered", format!("redelegated to {}", dst))),
+                    Effect::Delegate { v: dst, .. } if !post.reg_vals.contains(dst) || !post.reg_stored.contains(dst) => out.push(v("C13", "delegate-to-unregistered", format!("re-bonded rewards delegated to {}", dst))),
                     _ => {}
                 }
             }
@@ -1369,7 +1455,7 @@ pub fn check_step(cx: &StepCtx) -> Vec<Violation> {
     // ---------------------------------------------------------------- C13: validator removal
     if kind == "reg.remove" && ok && reg_wired(cx.chain_pre) {
         if let Op::Tx { call: Call::Reg(RegMsg::Remove(val)), .. } = op {
-            if post.reg_vals.contains(val) {
+            if post.reg_vals.contains(val) || post.reg_stored.contains(val) {
                 out.push(v("C13", "still-registered", format!("{} still registered after removal", val)));
             }
             if post.reg_vals.is_empty() {
@@ -1385,7 +1471,7 @@ pub fn check_step(cx: &StepCtx) -> Vec<Violation> {
             }
             for e in cx.effects.iter() {
                 if let Effect::Redelegate { dst, .. } = e {
-                    if !post.reg_vals.contains(dst) {
+                    if !post.reg_vals.contains(dst) || !post.reg_stored.contains(dst) {
                         out.push(v("C13", "redelegated-to-unregistered", format!("redelegated to {}", dst)));
                     }
                 }
@@ -1418,6 +1504,11 @@ pub fn check_step(cx: &StepCtx) -> Vec<Violation> {
                 }
             }
         }
+    }
+    // queries keep working: the State query that answered before the owner paused still answers
+    // afterwards (pausing writes nothing but the flag)
+    if kind == "hub.uparams" && ok && !pre.paused && post.paused && pre.q.is_some() && post.q.is_none() {
+        out.push(v("C11", "query-broken-by-pause", "the State query answered before the pause and fails on the paused hub".into()));
     }
     // the pause is lifted only by the owner's UpdateParams, or by the migration that moves the last
     // legacy entries; a migration with nothing to migrate changes nothing
